@@ -251,6 +251,22 @@ func init() {
 		body := []sitem{{Kind: "probe", Name: "a"}, {Kind: "probe", Name: "v"}, {Kind: "let", Name: "a", Val: 7}, {Kind: "let", Name: "b", Val: 8}, {Kind: "set", Name: "v", Val: 9}, {Kind: "probe", Name: "a"}, {Kind: "probe", Name: "b"}, {Kind: "probe", Name: "v"}}
 		tail := []sitem{{Kind: "probe", Name: "a"}, {Kind: "probe", Name: "b"}, {Kind: "probe", Name: "v"}}
 		kinds := []string{"for", "fn", "partial", "content", "blkctx", "defblk", "forit", "fn0"}
+		// a function called under ANOTHER name than the one it was defined with (an alias, an argument), from a scope
+		// where the defining name has been bound to something else: its body reads the caller's variable of that name
+		for _, t := range [][2]string{
+			{`<% let x = fn() { return x } %><% let g = x %><%= for (x) in ["loopvar"] { %><%= g() %><% } %>`, "loopvar"},
+			{`<% let unit = fn(n) { return "" + n + unit } %><% let fmt2 = unit %><% let unit = "kg" %><%= fmt2(3) %>|<%= unit %>`, "3kg|kg"},
+			{`<% let x = fn() { return x } %><% let call = fn(h) { let x = "inner"
+ return h() } %><%= call(x) %>`, "inner"},
+			{`<% let f = fn(a) { return a + name } %><% let name = "N" %><% let k = f %><%= k("x") %>|<%= f("y") %>`, "xN|yN"},
+		} {
+			c := RCase{Tmpl: t[0]}
+			o := e.addRenderCase("aliased-function", c)
+			e.Distinct(t[0])
+			if o.Class != "OK" || o.Out != t[1] {
+				e.Violate("c09-scope", fmt.Sprintf("%s rendered %q (%s %s), want %q", t[0], o.Out, o.Class, firstLine(o.Msg), t[1]), map[string]interface{}{"case": c, "observed": o})
+			}
+		}
 		// an indexed path (us[0].Name) read in a scope that only INHERITS the indexed variable (a function body,
 		// a partial, a default block, a loop inside one of these): the variable is still readable afterwards
 		for _, t := range [][2]string{
